@@ -36,11 +36,42 @@ def _inline(fn: ast.AST, body: List[ast.stmt]) -> Tuple[List[ast.stmt], Dict[str
     return body, single
 
 
+HELPERS: Dict[str, ast.AST] = {}        # name -> FunctionDef of single-expression helpers visible to the reducer (set by facts_of)
+
+
+def _single_return(fn: ast.AST) -> Optional[ast.AST]:
+    """the expression of a helper whose body is (a docstring and) one `return <expr>` (or a lambda's body)"""
+    if isinstance(fn, ast.Lambda):
+        return fn.body
+    body = [s for s in fn.body if not (isinstance(s, ast.Expr) and isinstance(s.value, ast.Constant))]
+    if len(body) == 1 and isinstance(body[0], ast.Return) and body[0].value is not None:
+        return body[0].value
+    return None
+
+
 class _Expand(ast.NodeTransformer):
     def __init__(self, single: Dict[str, ast.AST], bound=()):
         self.single = single
         self.bound = set(bound)
         self.depth = 0
+
+    def visit_Call(self, n: ast.Call):
+        # a call of a single-expression helper with positional arguments is replaced by its expression (non_null(vals) ->
+        # [v for v in vals if v is not None]): extracting the None filter into a helper does not change the facts
+        if isinstance(n.func, ast.Name) and n.func.id in HELPERS and n.func.id not in self.bound and not n.keywords and self.depth < 12:
+            h = HELPERS[n.func.id]
+            expr = _single_return(h)
+            params = [a.arg for a in h.args.args]
+            if expr is not None and len(params) == len(n.args) and not h.args.vararg and not h.args.kwarg and not h.args.kwonlyargs:
+                args = [self.visit(a) for a in n.args]
+                self.depth += 1
+                sub = _Expand(dict(zip(params, args)))
+                sub.depth = self.depth
+                r = sub.visit(copy.deepcopy(expr))
+                r = self.visit(r)
+                self.depth -= 1
+                return r
+        return self.generic_visit(n)
 
     def visit_Name(self, n: ast.Name):
         if isinstance(n.ctx, ast.Load) and n.id in self.single and n.id not in self.bound and self.depth < 12:
@@ -139,13 +170,26 @@ def _mean_of(e: ast.AST, source: str) -> Optional[str]:
     return None
 
 
-def facts_of(fn: ast.AST, source: str) -> dict:
-    """fn: FunctionDef or Lambda whose reduction reads `source`."""
+def facts_of(fn: ast.AST, source: str, helpers: Optional[Dict[str, ast.AST]] = None, bindings: Optional[Dict[str, ast.AST]] = None) -> dict:
+    """fn: FunctionDef or Lambda whose reduction reads `source`.  `helpers`: single-expression functions the reducer may call
+    (expanded in place); `bindings`: free variables of a closure made by a factory (pick -> min)."""
+    global HELPERS
+    saved = HELPERS
+    HELPERS = dict(helpers or {})
+    try:
+        return _facts_of(fn, source, bindings or {})
+    finally:
+        HELPERS = saved
+
+
+def _facts_of(fn: ast.AST, source: str, bindings: Dict[str, ast.AST]) -> dict:
     if isinstance(fn, ast.Lambda):
         body = [ast.Return(value=fn.body)]
     else:
         body = [s for s in fn.body if not (isinstance(s, ast.Expr) and isinstance(s.value, ast.Constant))]
     _, single = _inline(fn, body)
+    for k_, v_ in bindings.items():
+        single.setdefault(k_, v_)
     rets = [s for s in ast.walk(ast.Module(body=body, type_ignores=[])) if isinstance(s, ast.Return)]
     out = {"kind": "?", "filter": "?", "empty": "?", "min_count": None, "divisor": None, "detail": ""}
     # early `return None` guards on the count of values
